@@ -117,12 +117,28 @@ Definition match_out (slack : Z) (r i : out) (b : binding) : option binding :=
   | _, _ => None
   end.
 
+(* a long PutMany batch is sent as a short pattern and a repeat count *)
+Definition rep_recs {A : Type} (n : nat) (l : list A) : list A := concat (repeat l n).
+
 (** ** observed steps *)
 Inductive xop :=
 | XOp (o : op)                      (* versions inside are implementation ids, expirations in the client's frame *)
 | XWait (k : key) (v : nat).        (* WaitForVersionChange(ctx with a short deadline, k, v) *)
 
 Record obs := mkObs { o_t0 : Z; o_t1 : Z; o_skew : Z; o_op : xop; o_out : out }.
+
+(* a tight run of Puts (no expiration) over the keys [ks] in turn, all inside the interval [t0,t1]:
+   the version ids the implementation returned, as runs (first id, how many consecutive ids) *)
+Fixpoint tight_puts_from (i : nat) (t0 t1 skew : Z) (ks : list key) (v : value) (ids : list nat) : list obs :=
+  match ids with
+  | [] => []
+  | id :: r =>
+      let k := nth (Nat.modulo i (length ks)) ks [] in
+      mkObs t0 t1 skew (XOp (Put k v None)) (ORec (k, v, id, None)) :: tight_puts_from (S i) t0 t1 skew ks v r
+  end.
+
+Definition tight_puts (t0 t1 skew : Z) (ks : list key) (v : value) (runs : list (nat * nat)) : list obs :=
+  tight_puts_from 0 t0 t1 skew ks v (flat_map (fun bl => seq (fst bl) (snd bl)) runs).
 
 Definition shift_exp (d : Z) (e : option Z) : option Z := option_map (fun t => t + d)%Z e.
 
